@@ -371,6 +371,238 @@ fn lockstep_case(s: &Spec, cutoff: usize, seed: u64, state: Vec<bool>, beta: f64
     same
 }
 
+/// what differs between the Ising sampler and the generic one ("" = nothing)
+fn difference(g: &G, q: &Q) -> &'static str {
+    if g.state_ref() != q.state_ref() {
+        "state"
+    } else if QmcStepper::get_n(g) != QmcStepper::get_n(q) {
+        "n"
+    } else if g.get_cutoff() != q.get_cutoff() {
+        "cutoff"
+    } else if show_slots(g.get_manager_ref()) != show_slots(q.get_manager_ref()) {
+        "ops"
+    } else {
+        ""
+    }
+}
+
+/// one lock-step step (whole `timestep`s, or the same composition through the parts)
+fn step_both(g: &mut G, q: &mut Q, beta: f64, split: bool) {
+    if split {
+        g.single_diagonal_step(beta);
+        g.single_cluster_step();
+        q.diagonal_update(beta);
+        if q.should_do_cluster_update() {
+            q.cluster_update().unwrap();
+        }
+        q.flip_free_bits();
+    } else {
+        g.timestep(beta);
+        q.timestep(beta);
+    }
+}
+
+/// is the heat-bath table present on the Ising sampler (= does its sweep run heat-bath)? Not a public getter;
+/// read off the serialised form.
+fn has_table(g: &G) -> bool {
+    !serde_json::to_value(g).unwrap()["bond_weights"].is_null()
+}
+
+fn hist_tok(hist: &[(bool, usize)]) -> String {
+    if hist.is_empty() {
+        "-".into()
+    } else {
+        hist.iter().map(|(b, k)| format!("{}x{}", *b as u8, k)).collect::<Vec<_>>().join(",")
+    }
+}
+
+/// OPTION HISTORY after the conversion, applied to BOTH samplers: before each block `set_enable_heatbath(hb)` on the
+/// Ising sampler and `set_do_heatbath(hb)` on its conversion, then k lock-step steps.  `prehb`: the option is also set
+/// on the Ising sampler before the kpre steps and the conversion (into_qmc does not carry it; the first block sets it
+/// explicitly on both).  h = 0.  Oracle: identical state / n / cutoff / operator string after every step of every
+/// block, energies differ by N*Gamma.
+fn lockstep_hist_case(s: &Spec, cutoff: usize, seed: u64, state: Vec<bool>, beta: f64, kpre: usize, prehb: bool, split: bool, hist: &[(bool, usize)]) -> bool {
+    let mut g = build(s, cutoff, seed, state);
+    if prehb {
+        g.set_enable_heatbath(true);
+    }
+    for _ in 0..kpre {
+        if split {
+            g.single_diagonal_step(beta);
+            g.single_cluster_step();
+        } else {
+            g.timestep(beta);
+        }
+    }
+    let input = |observed: &str| format!("lockstep-hist {} {} {} {} {} {} {} {} {}", spec_tok(s), cutoff, rat(beta), seed, kpre, prehb as u8, split as u8, hist_tok(hist), observed);
+    let gc = g.clone();
+    let mut q = match catch(move || gc.into_qmc()) {
+        Ok(q) => q,
+        Err(p) => {
+            emit(true, &input("panic"), "1 ? ? ? ?", Some(Err(format!("into_qmc panicked: {}", p))));
+            return false;
+        }
+    };
+    let gate = q.should_do_cluster_update();
+    let mut observed = "same".to_string();
+    let (mut sum_g, mut sum_q, mut t) = (0usize, 0usize, 0usize);
+    let mut switched_off_after_heatbath_steps = false;
+    let mut hb_steps_done = 0;
+    'blocks: for (bi, (hb, k)) in hist.iter().enumerate() {
+        g.set_enable_heatbath(*hb);
+        q.set_do_heatbath(*hb);
+        if !*hb && hb_steps_done > 0 && *k > 0 {
+            switched_off_after_heatbath_steps = true;
+        }
+        for _ in 0..*k {
+            t += 1;
+            if let Err(p) = catch(|| step_both(&mut g, &mut q, beta, split)) {
+                observed = format!("panic@{}(block{}):{}", t, bi + 1, p.replace(' ', "_").chars().take(60).collect::<String>());
+                break 'blocks;
+            }
+            if *hb {
+                hb_steps_done += 1;
+            }
+            sum_g += QmcStepper::get_n(&g);
+            sum_q += QmcStepper::get_n(&q);
+            let what = difference(&g, &q);
+            if !what.is_empty() {
+                observed = format!("diverged@{}(block{},hb={}):{}", t, bi + 1, *hb as u8, what);
+                break 'blocks;
+            }
+        }
+    }
+    let same = observed == "same";
+    if switched_off_after_heatbath_steps {
+        stat("lockstep_hist_runs_switching_heatbath_off_after_heatbath_steps", 1);
+    }
+    if sum_g > 0 {
+        stat("lockstep_hist_runs_with_operators", 1);
+    }
+    // the flags both samplers carry at the end of the history (a run that stopped early still gets the last call)
+    let (qflag, gflag) = if observed.starts_with("panic") {
+        ("?".to_string(), "?".to_string())
+    } else {
+        if let Some((hb, _)) = hist.last() {
+            g.set_enable_heatbath(*hb);
+            q.set_do_heatbath(*hb);
+        }
+        ((q.should_do_heatbath() as u8).to_string(), (has_table(&g) as u8).to_string())
+    };
+    let (eg, eq) = if t > 0 && same {
+        (g.get_energy_for_average_n(sum_g as f64 / t as f64, beta), q.get_energy_for_average_n(sum_q as f64 / t as f64, beta))
+    } else {
+        (g.get_offset(), q.get_offset())
+    };
+    let want = s.nv as f64 * s.gamma;
+    let oracle = if !same {
+        Err(format!("trajectories differ under the same option history {} ({}); should_do_cluster_update()={} h={}", hist_tok(hist), observed, gate, s.h))
+    } else if ((eg - eq) - want).abs() > 1e-9 * (want.abs() + eg.abs() + eq.abs()) {
+        Err(format!("energies differ by {} instead of N*Gamma={}", eg - eq, want))
+    } else {
+        Ok(())
+    };
+    let ediff = if same { format!("~{:e}", eg - eq) } else { "~0".to_string() };
+    emit(t > 0, &input(&observed), &format!("1 {} {} {} {}", gate as u8, qflag, gflag, ediff), Some(oracle));
+    same
+}
+
+/// SWAP, THEN CONVERT: two Ising samplers on the same graph with the same coupling signs (so `can_swap_managers` is Ok)
+/// but different |J| / Gamma, heat-bath enabled on one or both BEFORE the swap, kpre steps each, the raw public
+/// `swap_manager_and_state`, then sampler `who` is converted, the conversion is told the option that sampler was given
+/// (`set_do_heatbath`), and both are stepped in lock-step (h = 0).  Nothing is re-set on the Ising sampler after the
+/// swap: a swap moves only string and state, so the sampler still sweeps with its own option and its own table.
+fn lockstep_swap_case(sa: &Spec, sb: &Spec, ca: usize, cb: usize, seed: u64, beta: f64, kpre_a: usize, kpre_b: usize, hb_a: bool, hb_b: bool, who_a: bool, other_direction: bool, kpost: usize, gen: &mut SplitMix64) -> bool {
+    let state_a: Vec<bool> = (0..sa.nv).map(|_| gen.coin()).collect();
+    let state_b: Vec<bool> = (0..sa.nv).map(|_| gen.coin()).collect();
+    let mut a = build(sa, ca, seed, state_a);
+    let mut b = build(sb, cb, seed ^ 0x5a5a, state_b);
+    a.set_enable_heatbath(hb_a);
+    b.set_enable_heatbath(hb_b);
+    for _ in 0..kpre_a {
+        a.timestep(beta);
+    }
+    for _ in 0..kpre_b {
+        b.timestep(beta);
+    }
+    let (cut_a, cut_b) = (a.get_cutoff(), b.get_cutoff());
+    let input = |observed: &str| {
+        format!(
+            "lockstep-swap {} {} {} {} {} {} {} {} {} {} {} {} {} {} {} {}",
+            edges_tok(&sa.edges), rat(sa.gamma), edges_tok(&sb.edges), rat(sb.gamma), sa.nv, cut_a, cut_b, rat(beta), seed, kpre_a, kpre_b, hb_a as u8, hb_b as u8,
+            if who_a { "a" } else { "b" }, kpost, observed
+        )
+    };
+    if let Err(e) = a.can_swap_managers(&b) {
+        emit(true, &input("rejected"), "1 ? ? ? ?", Some(Err(format!("can_swap_managers rejected replicas that differ only in magnitudes: {}", e))));
+        return false;
+    }
+    if other_direction {
+        b.swap_manager_and_state(&mut a);
+    } else {
+        a.swap_manager_and_state(&mut b);
+    }
+    let (mut g, s, hb) = if who_a { (a, sa, hb_a) } else { (b, sb, hb_b) };
+    let table_after_swap = has_table(&g);
+    let cutoff_after_swap = g.get_cutoff();
+    let gc = g.clone();
+    let mut q = match catch(move || gc.into_qmc()) {
+        Ok(q) => q,
+        Err(p) => {
+            emit(true, &input("panic"), "1 ? ? ? ?", Some(Err(format!("into_qmc panicked: {}", p))));
+            return false;
+        }
+    };
+    q.set_do_heatbath(hb);
+    let gate = q.should_do_cluster_update();
+    let mut observed = "same".to_string();
+    let (mut sum_g, mut sum_q) = (0usize, 0usize);
+    let first = difference(&g, &q);
+    if !first.is_empty() {
+        observed = format!("diverged@0:{}", first);
+    } else {
+        for t in 0..kpost {
+            if let Err(p) = catch(|| step_both(&mut g, &mut q, beta, false)) {
+                observed = format!("panic@{}:{}", t + 1, p.replace(' ', "_").chars().take(60).collect::<String>());
+                break;
+            }
+            sum_g += QmcStepper::get_n(&g);
+            sum_q += QmcStepper::get_n(&q);
+            let what = difference(&g, &q);
+            if !what.is_empty() {
+                observed = format!("diverged@{}:{}", t + 1, what);
+                break;
+            }
+        }
+    }
+    let same = observed == "same";
+    if sum_g > 0 {
+        stat("lockstep_swap_runs_with_operators", 1);
+    }
+    stat(&format!("lockstep_swap_hb_chosen{}_partner{}", hb as u8, if who_a { hb_b } else { hb_a } as u8), 1);
+    let (eg, eq) = if kpost > 0 && same {
+        (g.get_energy_for_average_n(sum_g as f64 / kpost as f64, beta), q.get_energy_for_average_n(sum_q as f64 / kpost as f64, beta))
+    } else {
+        (g.get_offset(), q.get_offset())
+    };
+    let want = s.nv as f64 * s.gamma;
+    let oracle = if !same {
+        Err(format!(
+            "after swap_manager_and_state the {} sampler (heat-bath option {}, table present {}) and its conversion (set_do_heatbath({})) differ ({})",
+            if who_a { "first" } else { "second" }, hb, table_after_swap, hb, observed
+        ))
+    } else if table_after_swap != hb {
+        Err(format!("the swap changed the heat-bath option of the sampler: enabled {} before, table present {} after", hb, table_after_swap))
+    } else if ((eg - eq) - want).abs() > 1e-9 * (want.abs() + eg.abs() + eq.abs()) {
+        Err(format!("energies differ by {} instead of N*Gamma={}", eg - eq, want))
+    } else {
+        Ok(())
+    };
+    let ediff = if same { format!("~{:e}", eg - eq) } else { "~0".to_string() };
+    emit(kpost > 0, &input(&observed), &format!("1 {} {} {} {}", gate as u8, table_after_swap as u8, cutoff_after_swap, ediff), Some(oracle));
+    same
+}
+
 /// Diagonal sweeps only (`single_diagonal_step` vs `diagonal_update`), side by side from the same RNG
 /// state: must agree for every h (both sweeps see the same Hamiltonian and cutoff; no cluster update
 /// is involved), which is the part of the trajectory clause that survives F4.
@@ -557,6 +789,50 @@ fn main() {
         stat("lockstep_heatbath_both_same", hb2_same);
         stat("lockstep_gamma_zero_runs", g0);
         stat("lockstep_gamma_zero_same", g0_same);
+        // OPTION HISTORIES after the conversion (both samplers get the same calls) and SWAP-THEN-CONVERT, h = 0
+        let hreps = if a.thorough { 1200 } else { 60 };
+        let (mut hi, mut hi_same, mut sw, mut sw_same) = (0, 0, 0, 0);
+        for rep in 0..hreps {
+            let s = gen_spec(&mut gen, 0);
+            let cutoff = if gen.coin() { 1 + gen.below(3) as usize } else { s.nv + gen.below(8) as usize };
+            let state: Vec<bool> = (0..s.nv).map(|_| gen.coin()).collect();
+            let beta = *gen.pick(&betas);
+            let nblocks = 2 + gen.below(3) as usize;
+            let mut flag = rep % 4 != 3; // mostly: on first
+            let mut hist = vec![];
+            for _ in 0..nblocks {
+                hist.push((flag, 1 + gen.below(6) as usize));
+                flag = !flag;
+            }
+            if rep % 5 == 0 {
+                hist.last_mut().unwrap().1 += 12; // a long tail after the last switch
+            }
+            let kpre = (rep % 6) as usize;
+            let same = lockstep_hist_case(&s, cutoff, gen.next(), state, beta, kpre, rep % 3 == 1, rep % 4 == 2, &hist);
+            hi += 1;
+            hi_same += same as usize;
+            // swap, then convert: the partner has the same graph and signs, other magnitudes
+            let mut sb = s.clone();
+            let f = *gen.pick(&[0.25, 0.5, 2.0, 4.0]);
+            sb.edges.iter_mut().for_each(|e| e.1 *= f);
+            sb.gamma = *gen.pick(&[0.125, 0.25, 0.5, 1.0, 1.5, 2.0]);
+            if sb.gamma == s.gamma {
+                sb.gamma *= 2.0;
+            }
+            let (hb_a, hb_b) = match rep % 3 {
+                0 => (true, true),
+                1 => (true, false),
+                _ => (false, true),
+            };
+            let (ca, cb) = (1 + gen.below(2 * s.nv as u64) as usize, 1 + gen.below(2 * s.nv as u64) as usize);
+            let same = lockstep_swap_case(&s, &sb, ca, cb, gen.next(), beta, (rep % 5) as usize, ((rep / 2) % 4) as usize, hb_a, hb_b, rep % 2 == 0, rep % 4 >= 2, 20, &mut gen);
+            sw += 1;
+            sw_same += same as usize;
+        }
+        stat("lockstep_option_history_runs", hi);
+        stat("lockstep_option_history_same", hi_same);
+        stat("lockstep_swap_then_convert_runs", sw);
+        stat("lockstep_swap_then_convert_same", sw_same);
         // small energy units, stepping through the parts (see Opts::split), beta scaled by the inverse factor
         let sreps = if a.thorough { 300 } else { 30 };
         let (mut sm, mut sm_same) = (0, 0);
